@@ -31,6 +31,11 @@ MatchRow(r) ==
   /\ start' = r.start /\ earliest' = r.earliest /\ deleted' = r.deleted
   /\ panic' = r.panic
   /\ (~r.panic => SpecWinOf([fe |-> fixEB', ft |-> fixETS', eb |-> eb', ets |-> ets'], hashes', earliest', h') = r.win)
+  /\ (~r.panic => LET P == [fe |-> fixEB', ft |-> fixETS', eb |-> eb', ets |-> ets']
+                      c == CurrentNextEpoch(P, start', earliest', h') IN
+                  /\ r.curnextpanic = c.err /\ (~c.err => r.curnext = c.v)
+                  /\ r.isstart = IsEpochStart(P, h') /\ r.escur = EpochStartOf(P, h').v
+                  /\ r.preverr = PrevEpochStart(P, h').err /\ (~r.preverr => r.prev = PrevEpochStart(P, h').v))
 
 StepOf(r) == \/ r.ev = "eb"  /\ r.ok /\ ChangeEB(r.v)
              \/ r.ev = "ets" /\ r.ok /\ ChangeETS(r.v)
@@ -65,6 +70,24 @@ ObsStartsRan == Conf \/ (Good => (StartsRanW(obs) /\ start \in RanSet(obs) /\ (T
 ObsNextLater == Conf \/ (Good => NextLaterW(obs)) \/ Viol("NextLater", l)
 ObsGrid      == Conf \/ (Good => GridW(obs)) \/ Viol("Grid", l)
 ObsNoPanic   == Conf \/ Good \/ Viol("NoPanic", l)
+\* ---- queries about the current block (row = Trace[l]) ----
+Row == Trace[l]
+ObsNotGenesis == earliest # start
+\* GetCurrentNextEpoch: does not panic, strictly later than the height, equal to GetNextEpoch(height)
+\* and to the window's answer for the current block
+ObsCurNext == Conf \/ ((Good /\ ObsNotGenesis) => (~Row.curnextpanic /\ Row.curnext > h /\ ~Row.nextcurerr
+                                                       /\ Row.curnext = Row.nextcur /\ Row.nextcur = obs[Len(obs)].nx))
+                   \/ Viol("CurNext", l)
+\* IsEpochStart / GetEpochStart / GetEpochStartForBlock(height) / GetPreviousEpochStartForBlock(height)
+ObsCurStart == Conf \/ (Good => (/\ (Row.isstart <=> start = h) /\ (Row.isstart <=> Row.rannow)
+                                 /\ Row.escur = start /\ Row.escur = obs[Len(obs)].es
+                                 /\ (start - 1 >= earliest => (~Row.preverr /\ Row.prev < start
+                                        /\ Row.prev = obs[At(obs, start - 1)].es /\ Row.prev \in RanSet(obs)))))
+                    \/ Viol("CurStart", l)
+\* retrospectively: epoch-start processing ran in the new block iff that block was the next epoch
+\* announced (GetCurrentNextEpoch) one block earlier
+ObsAnnounced == [][Conf \/ IsReset(l') \/ panic' \/ h' # h + 1 \/ ~ObsNotGenesis \/ Trace[l].curnextpanic
+                    \/ (Trace[l'].rannow <=> Trace[l].curnext = h') \/ Viol("Announced", l')]_tvars
 ObsMono   == [][Conf \/ IsReset(l') \/ earliest' >= earliest \/ Viol("Mono", l')]_tvars
 ObsStable == [][Conf \/ IsReset(l') \/ panic' \/ StableWW(obs, obs') \/ Viol("Stable", l')]_tvars
 ObsDelOk  == [][Conf \/ IsReset(l') \/ panic' \/ deleted' = deleted \/ DelOkWW(obs, ToSet(deleted'), h') \/ Viol("DelOk", l')]_tvars
